@@ -234,7 +234,7 @@ async fn client(sh: Arc<Shared>, c: usize, spec: ClientSpec, slots: Slots) {
                             actor: *a,
                             via: "client-strong",
                             id: id.id,
-                            type_ok: id.name().ends_with("SA"),
+                            type_ok: crate::sa::ident_ok(&id),
                         });
                     }
                     Some(Hdl::W(a, w)) => {
@@ -243,7 +243,7 @@ async fn client(sh: Arc<Shared>, c: usize, spec: ClientSpec, slots: Slots) {
                             actor: *a,
                             via: "client-weak",
                             id: id.id,
-                            type_ok: id.name().ends_with("SA"),
+                            type_ok: crate::sa::ident_ok(&id),
                         });
                     }
                     None => {}
@@ -505,7 +505,7 @@ pub fn run_scenario(sc: &Scenario, erased: bool) -> RunOut {
                                             actor: a,
                                             via: "probe-strong",
                                             id: id.id,
-                                            type_ok: id.name().ends_with("SA"),
+                                            type_ok: crate::sa::ident_ok(&id),
                                         });
                                     }
                                     Some(Hdl::W(x, w)) if *x == a => {
@@ -514,7 +514,7 @@ pub fn run_scenario(sc: &Scenario, erased: bool) -> RunOut {
                                             actor: a,
                                             via: "probe-weak",
                                             id: id.id,
-                                            type_ok: id.name().ends_with("SA"),
+                                            type_ok: crate::sa::ident_ok(&id),
                                         });
                                     }
                                     _ => {}
@@ -527,7 +527,7 @@ pub fn run_scenario(sc: &Scenario, erased: bool) -> RunOut {
                         actor: a,
                         via: "harness-weak",
                         id: wid.id,
-                        type_ok: wid.name().ends_with("SA"),
+                        type_ok: crate::sa::ident_ok(&wid),
                     });
                     if let Some((h, at)) = take_strong(&sh, &slots, a) {
                         let g = CallGuard::start(&sh, a, OpKind::Probe, 'U', PROBE_UID_BASE + a as u64, 0, Ctx::Main);
